@@ -1,7 +1,7 @@
 (* C11 — no descriptor is leaked, closed twice, or closed without being owned (model: Unix.v). *)
 From Coq Require Import List Arith ZArith Bool Permutation.
 From IPC Require Import K KProofs Prog Ideal Unix UnixProofs.
-From IPC Require K Prog Ideal Api ApiProofs ApiInv Params.
+From IPC Require K Prog Ideal Api ApiProofs ApiInv Params Frag FragLife.
 Import ListNotations.
 
 (* after ANY operation sequence (failing sends, moved receivers, clones, drops in any order): the open
@@ -66,3 +66,18 @@ Theorem C11_creation_flags_cloexec :
   Params.SOCK_FLAGS_CLOEXEC = true /\ Params.RECVMSG_FLAGS_CLOEXEC = true /\ Params.DUP_CLOEXEC = true /\ Params.MEMFD_CLOEXEC = true.
 Proof. repeat split; reflexivity. Qed.
 Print Assumptions C11_creation_flags_cloexec.
+
+(* ---- the dedicated socket pair of a fragmented send (model: Frag.v; proofs: FragLife.v).  For every length, every
+   buffer size, every attachment count and EVERY ENOBUFS/EPIPE oracle, and whatever the outcome of the send: at most one
+   dedicated pair is created, and each of its two ends is closed exactly once - no leak on any error path, no second
+   close of a number the kernel may already have handed out again.  The sizes come from the GENERATED definitions. ---- *)
+Module FragLevel.
+Import Frag FragLife.
+Local Open Scope Z_scope.
+Theorem C11_send_dedicated_pair_balanced : forall fuel Ss len nfds faults o evs,
+  48 <= Ss < 2 ^ 62 -> 0 <= len < 2 ^ 62 ->
+  send fuel Ss len nfds faults = (o, evs) ->
+  (cnt is_sp evs <= 1)%nat /\ cnt is_rx evs = cnt is_sp evs /\ cnt is_tx evs = cnt is_sp evs.
+Proof. exact send_ded_balanced. Qed.
+Print Assumptions C11_send_dedicated_pair_balanced.
+End FragLevel.
